@@ -13,7 +13,7 @@ for d in sorted(glob.glob("/verif/seeded/*/")):
         det = json.load(open(os.path.join(d, "detect.json")))
     patch = open(os.path.join(d, "patch.diff")).read()
     files = sorted(set(re.findall(r"^\+\+\+ b/(\S+)", patch, re.M)))
-    caught = [p for p, r in det.items() if r.get("detected")]
+    caught = [p + (" (thorough tier only)" if r.get("tier") == "thorough" else "") for p, r in det.items() if r.get("detected")]
     missed = [p for p, r in det.items() if r.get("exit") == 0]
     summary = ""
     np_ = os.path.join(d, "notes.md")
@@ -24,10 +24,10 @@ for d in sorted(glob.glob("/verif/seeded/*/")):
     rows.append((meta["id"], meta["breaks_property"], ", ".join(files), ", ".join(caught) or "-", ", ".join(missed) or "-", summary))
 with open("/verif/seeded/README.md", "w") as f:
     f.write("# Seeded mutants (written by independent sub-agents, confirmed by tools/seed_confirm.py)\n\n")
-    f.write("Each directory holds patch.diff, demo_test.go (fails with the patch, passes without), notes.md (what it needs to manifest), meta.json (confirmation) and detect.json (outcome of the quick checks with the patch applied to /repo, written by tools/seed_detect.py).\n\n")
-    f.write("| mutant | targets | files | detected by (quick tier) | run but not detected by | what it is (from notes.md) |\n|---|---|---|---|---|---|\n")
+    f.write("Each directory holds patch.diff, demo_test.go (fails with the patch, passes without), notes.md (what it needs to manifest), meta.json (confirmation) and detect.json (outcome of the quick checks built against a scratch worktree of /repo with the patch applied, written by tools/seed_detect.py).\n\n")
+    f.write("| mutant | targets | files | detected by (quick tier unless noted) | run but not detected by | what it is (from notes.md) |\n|---|---|---|---|---|---|\n")
     for r in rows:
         f.write("| %s | %s | %s | %s | %s | %s |\n" % r)
-    n = len(rows); c = sum(1 for r in rows if r[1] in r[3].split(", "))
+    n = len(rows); c = sum(1 for r in rows if any(x.split(" ")[0] == r[1] for x in r[3].split(", ")))
     f.write("\n%d mutants; %d detected by the check of the property they target.\n" % (n, c))
 print("rows", len(rows))
